@@ -84,6 +84,9 @@ DUR_ALPHA = [
     timedelta(seconds=315576000000),
     -timedelta(seconds=315576000000),
     timedelta(seconds=2**31 + 1, microseconds=999999),
+    # more than 53 bits of seconds x microseconds: a codec that goes through a double loses these
+    timedelta(days=200000, microseconds=1),
+    -timedelta(seconds=315575999999, microseconds=999999),
 ]
 SUB_ALPHA = [{}, {"a": 1}, {"s": "x"}, {"a": -1, "s": "é"}]
 
